@@ -594,7 +594,47 @@ impl<T: Payload> Ctx<T> {
     }
 
     fn exec(&mut self, op: Op, tag: Tag) -> Out {
-        let d = |k: u8| Duration::from_nanos(k as u64);
+        // 255 stands for Duration::MAX (deadline computation overflows)
+        let d = |k: u8| if k == 255 { Duration::MAX } else { Duration::from_nanos(k as u64) };
+        if let Op::SendT(255) | Op::SendOT(255) | Op::RecvT(255) = op {
+            return self.exec_overflowing(op, tag);
+        }
+        self.exec_inner(op, tag, &d)
+    }
+
+    /// timed call with an overflowing duration: kanal panics (unwrap of the
+    /// deadline); the panic is caught here like a thread-confined panic would be
+    fn exec_overflowing(&mut self, op: Op, tag: Tag) -> Out {
+        let mut o: Option<T> = None;
+        let r = catch_unwind(AssertUnwindSafe(|| match op {
+            Op::SendT(_) => {
+                let _ = self.s().sync().send_timeout(T::make(tag), Duration::MAX);
+            }
+            Op::SendOT(_) => {
+                o = Some(T::make(tag));
+                let _ = self.s().sync().send_option_timeout(&mut o, Duration::MAX);
+            }
+            _ => {
+                if let Ok(v) = self.r().sync().recv_timeout(Duration::MAX) {
+                    harness_drop(v);
+                }
+            }
+        }));
+        let mut out = match r {
+            Err(_) => {
+                crate::runner::clear_last_panic();
+                Out::r(Res::Panicked)
+            }
+            Ok(()) => Out::r(Res::Unit),
+        };
+        if let Op::SendOT(_) = op {
+            out.opt_some = Some(o.is_some());
+        }
+        harness_drop(o);
+        out
+    }
+
+    fn exec_inner(&mut self, op: Op, tag: Tag, d: &dyn Fn(u8) -> Duration) -> Out {
         match op {
             Op::Send | Op::SendRepoll => {
                 let v = T::make(tag);
@@ -868,6 +908,18 @@ impl<T: Payload> Ctx<T> {
                     }
                 }
                 Out::r(Res::Ok)
+            }
+            Op::MoveStream(slot) => {
+                let f = std::mem::replace(&mut self.futs[slot as usize], FutI::Empty);
+                match f {
+                    FutI::Stream(b) => {
+                        // ReceiveStream is Unpin: safe code may move it between polls
+                        let s: ReceiveStream<'static, T> = *Pin::into_inner(b);
+                        self.futs[slot as usize] = FutI::Stream(Box::pin(s));
+                    }
+                    _ => panic!("MoveStream on a slot without stream"),
+                }
+                Out::r(Res::Unit)
             }
             Op::StreamIsTerm(slot) => match &self.futs[slot as usize] {
                 FutI::Stream(f) => Out::r(Res::Bool(futures_core::FusedStream::is_terminated(&**f))),
